@@ -281,6 +281,8 @@ class Evaluator:
                     raise Unsupported('token type arithmetic')
             if isinstance(n.op, ast.Add) and type(l) is type(r) and isinstance(l, (int, str, tuple, list)):
                 return l + r
+            if isinstance(n.op, ast.Add) and isinstance(l, int) and isinstance(r, int):
+                return l + r
             if isinstance(n.op, ast.Sub) and isinstance(l, int) and isinstance(r, int):
                 return l - r
             raise Unsupported('binop')
@@ -305,6 +307,11 @@ class Evaluator:
                 except TypeError as e:
                     raise Crash(f'{e} in `{src(n)}`')
             i = self.ev(n.slice, env)
+            if isinstance(b, AbsToken):
+                m_ = self._method_of(b, '__getitem__') if b.cls is not None else None
+                if m_ is None:
+                    raise Crash(f'TypeError: token is not subscriptable in `{src(n)}`')
+                return m_(i)
             try:
                 return b[i]
             except (IndexError, KeyError, TypeError) as e:
@@ -384,6 +391,33 @@ class Evaluator:
                 return l >= r
         raise Unsupported('comparison')
 
+    def _construct(self, cv, args, kw):
+        """Token(ttype, value) / <group class>(tokens) of sqlparse.sql"""
+        if cv.cls.name == 'Token':
+            if len(args) != 2 or kw:
+                raise Unsupported('Token(...) operands')
+            t_ = AbsToken(self.ctx.repo, ttype=args[0], value=args[1])
+            t_.parent = None
+            return t_
+        g_ = AbsToken(self.ctx.repo, cls=cv.cls)
+        g_.tokens = list(args[0]) if args else []
+        g_.parent = None
+        g_.is_whitespace = False
+        for k_ in g_.tokens:
+            k_.parent = g_
+        vals_ = [getattr(k_, 'value', UNKNOWN) for k_ in g_.tokens]
+        g_.value = ''.join(vals_) if all(isinstance(v_, str) for v_ in vals_) else UNKNOWN
+        return g_
+
+    def _iterate(self, v, node=None):
+        """iteration over a value: an abstract group is iterated through the __iter__ of its class (the analysed source)"""
+        if isinstance(v, AbsToken):
+            m_ = self._method_of(v, '__iter__') if v.cls is not None else None
+            if m_ is None:
+                raise Crash(f'TypeError: token is not iterable' + (f' in `{src(node)}`' if node is not None else ''))
+            return list(m_())
+        return v
+
     def _obj_method(self, obj, name):
         """bound method of a record that stands for an instance of a class of the analysed source"""
         m = self.ctx.repo.lookup_method(obj._cls, name)
@@ -436,6 +470,9 @@ class Evaluator:
     def call(self, n, env):
         f = n.func
         # closures, lambdas and bound methods held in variables / attributes
+        if isinstance(f, ast.Name) and f.id in env and isinstance(env[f.id], ClsRef) and env[f.id].cls.mod.name == 'sqlparse.sql':
+            args, kw = self._args(n, env)
+            return self._construct(env[f.id], args, kw)
         if isinstance(f, ast.Name) and f.id in env and (isinstance(env[f.id], MiniFunc) or callable(env[f.id])) and not isinstance(env[f.id], type):
             args, kw = self._args(n, env)
             return env[f.id](*args, **kw)
@@ -450,21 +487,7 @@ class Evaluator:
                 cv = None
             if isinstance(cv, ClsRef) and cv.cls.mod.name == 'sqlparse.sql':
                 args, kw = self._args(n, env)
-                if cv.cls.name == 'Token':
-                    if len(args) != 2 or kw:
-                        raise Unsupported('Token(...) operands')
-                    t_ = AbsToken(self.ctx.repo, ttype=args[0], value=args[1])
-                    t_.parent = None
-                    return t_
-                g_ = AbsToken(self.ctx.repo, cls=cv.cls)
-                g_.tokens = list(args[0]) if args else []
-                g_.parent = None
-                g_.is_whitespace = False
-                for k_ in g_.tokens:
-                    k_.parent = g_
-                vals_ = [getattr(k_, 'value', UNKNOWN) for k_ in g_.tokens]
-                g_.value = ''.join(vals_) if all(isinstance(v_, str) for v_ in vals_) else UNKNOWN
-                return g_
+                return self._construct(cv, args, kw)
         if isinstance(f, ast.Attribute):
             try:
                 base0 = self.ev(f.value, env) if not (isinstance(f.value, ast.Name) and f.value.id not in env) else None
@@ -554,7 +577,9 @@ class Evaluator:
                 raise Crash(f'AttributeError {args[1]!r} in `{src(n)}`')
             if f.id == 'enumerate' and len(args) in (1, 2):
                 return list(enumerate(*args))
-            if f.id in ('list', 'tuple') and len(args) == 1 and isinstance(args[0], (list, tuple)):
+            if f.id in ('list', 'tuple') and len(args) == 1 and isinstance(args[0], AbsToken):
+                args = [self._iterate(args[0], n)]
+            if f.id in ('list', 'tuple') and len(args) == 1 and (isinstance(args[0], (list, tuple)) or type(args[0]).__name__ in ('list_iterator', 'list_reverseiterator', 'tuple_iterator')):
                 return list(args[0]) if f.id == 'list' else tuple(args[0])
             if f.id in ('any', 'all'):
                 vals = [self.truth(x) for x in args[0]]
@@ -577,6 +602,11 @@ class Evaluator:
                 for k, a in zip(names, args):
                     kw[k] = a
                 return self.imt(kw.get('token'), kw.get('i'), kw.get('m'), kw.get('t'))
+            if f.id == 'str' and len(args) == 1 and isinstance(args[0], AbsToken):
+                m_ = self._method_of(args[0], '__str__')
+                if m_ is None:
+                    raise Unsupported('str() of a token without __str__')
+                return m_()
             if f.id in ('str', 'bool', 'int'):
                 return {'str': str, 'bool': bool, 'int': int}[f.id](*args)
             # a module-level function of the analysed source (a helper that builds a predicate, say)
@@ -734,7 +764,7 @@ def run_function(ev, fnode, env, max_steps=200):
                     raise Crash(f'TypeError in `{src(s)}`: {e_}')
                 assign(s.target, nv, env)
             elif isinstance(s, ast.For) and isinstance(s.target, (ast.Name, ast.Tuple)):
-                it = ev.ev(s.iter, env)
+                it = ev._iterate(ev.ev(s.iter, env), s.iter)
                 broke = False
                 for x in it:
                     assign(s.target, x, env)
@@ -779,6 +809,20 @@ def run_function(ev, fnode, env, max_steps=200):
                     block(s.finalbody, env)
             elif isinstance(s, ast.Pass):
                 pass
+            elif isinstance(s, ast.Delete) and getattr(ev, 'effects', False) and all(isinstance(t_, ast.Subscript) for t_ in s.targets):
+                for t_ in s.targets:
+                    base_ = ev.ev(t_.value, env)
+                    if not isinstance(base_, list):
+                        raise Unsupported('del target')
+                    try:
+                        if isinstance(t_.slice, ast.Slice):
+                            lo_ = ev.ev(t_.slice.lower, env) if t_.slice.lower is not None else None
+                            hi_ = ev.ev(t_.slice.upper, env) if t_.slice.upper is not None else None
+                            del base_[lo_:hi_]
+                        else:
+                            del base_[ev.ev(t_.slice, env)]
+                    except (IndexError, TypeError) as e_:
+                        raise Crash(f'{type(e_).__name__} in `{src(s)}`')
             elif isinstance(s, (ast.FunctionDef,)):
                 env[s.name] = MiniFunc(ev, s, env, s.name)
             elif isinstance(s, ast.While):
@@ -818,13 +862,20 @@ def run_function(ev, fnode, env, max_steps=200):
             base = ev.ev(t.value, env)
             if isinstance(base, Obj):
                 setattr(base, t.attr, v)
-            elif isinstance(base, AbsToken) and t.attr == 'value' and getattr(ev, 'effects', False):
-                base.value = v
+            elif isinstance(base, AbsToken) and t.attr in ('value', 'parent', 'ttype', 'normalized', 'tokens') and getattr(ev, 'effects', False):
+                setattr(base, t.attr, v)
             else:
                 raise Unsupported('attribute store')
         elif isinstance(t, ast.Tuple):
             for e, x in zip(t.elts, v):
                 assign(e, x, env)
+        elif isinstance(t, ast.Subscript) and isinstance(t.slice, ast.Slice) and getattr(ev, 'effects', False):
+            base = ev.ev(t.value, env)
+            if not isinstance(base, list) or t.slice.step is not None:
+                raise Unsupported('slice store')
+            lo = ev.ev(t.slice.lower, env) if t.slice.lower is not None else None
+            hi = ev.ev(t.slice.upper, env) if t.slice.upper is not None else None
+            base[lo:hi] = list(v)
         elif isinstance(t, ast.Subscript) and not isinstance(t.slice, ast.Slice):
             base = ev.ev(t.value, env)
             if not isinstance(base, (dict, list)):
